@@ -366,7 +366,7 @@ Proof.
        let '(fin, c4) :=
          match f with
          | None => ([], c3)
-         | Some f0 => let '(rf, c4) := cbranch f0 rempty None c3 in (rs (radd rf (expr_as_stmt rf)), c4)
+         | Some f0 => let '(rf, c4) := cbranch f0 rempty None c3 in (or_pass (rs (radd rf (expr_as_stmt rf))), c4)
          end in
        let body_stmts :=
          or_pass (match orel with
@@ -391,9 +391,9 @@ Proof.
       eapply cbranch_mono; [exact Mo | exact Ero | exact H2]. }
     destruct (match f with
               | None => ([], c3)
-              | Some f0 => let '(rf, c4) := cbranch f0 rempty None c3 in (rs (radd rf (expr_as_stmt rf)), c4)
+              | Some f0 => let '(rf, c4) := cbranch f0 rempty None c3 in (or_pass (rs (radd rf (expr_as_stmt rf))), c4)
               end) as [fin c4] eqn:Ef. inversion Hc; subst.
-    exact (opt_mono f c3 fin c' (fun rf => rs (radd rf (expr_as_stmt rf))) Mf Ef H3). }
+    exact (opt_mono f c3 fin c' (fun rf => or_pass (rs (radd rf (expr_as_stmt rf)))) Mf Ef H3). }
   destruct hs as [|h hs1].
   - destruct f as [[|x f0]|]; [inversion Hc; subst; exact H1 | apply Hmain; exact Hc | inversion Hc; subst; exact H1].
   - apply Hmain. exact Hc.
